@@ -22,6 +22,10 @@ THEOREMS = ["Nmfu.C05_optimised_equivalent", "Nmfu.C05_lag_at_most_one_step",
 OPT_THEOREMS = ["Nmfu.C05_simplify_else_preserves", "Nmfu.C05_simplify_else_preserves_with_start",
                 "Nmfu.Machine.simplifyElse_dispatch", "Nmfu.feedArm_simplify", "Nmfu.endArm_simplify",
                 "Nmfu.simplifyElse_needs_determinism", "Nmfu.Machine.simplifyElse_idem", "Nmfu.Machine.simplifyElse_deterministic"]
+# … and of `_optimize_remove_inaccessible`: removing states no kept state refers to, and renumbering, leaves every dispatch
+# tree the same up to the renumbering (hypothesis `closedUnder`, evaluated per snapshot on the set the mirror keeps)
+REMOVE_THEOREMS = ["Nmfu.C05_remove_states_preserves", "Nmfu.dispatch_sim", "Nmfu.armTree_sim", "Nmfu.Acts.tree_sim",
+                   "Nmfu.removeStates_renOK", "Nmfu.closedUnder_sound"]
 PASS_CFGS = ("O3", "O0+simplify", "O0+remove", "O1")
 
 
@@ -99,7 +103,9 @@ def work(job):
             for rec in plog:
                 j = optpasses.judge(_model, rec)
                 j["cfg"] = name
-                if not j.get("same") or not j.get("det"):
+                hyp = j.get("det") if rec["pass"] == "simplify" else j.get("closed")
+                j["hyp"] = bool(hyp)
+                if not j.get("same") or not hyp:
                     # the mirror does not reproduce the real pass here, or the theorem's hypothesis fails:
                     # compare the machine before and after this very invocation by the certificate
                     v, r, r2 = equiv(rec["before"], rec["after"])
@@ -274,6 +280,7 @@ def main():
     ck = Check("C05", "translation_validation")
     ck.lean_obligations("NmfuProps.C05", THEOREMS)
     ck.lean_obligations("NmfuProps.C05Opt", OPT_THEOREMS)
+    ck.lean_obligations("NmfuProps.C05Remove", REMOVE_THEOREMS)
     n_gen = 150 if ck.tier == "quick" else 2500
     progs = list(population.population(ck.seed, n_gen))
     with mp.Pool(min(14, os.cpu_count() or 4), initializer=_init) as pool:
@@ -302,17 +309,17 @@ def main():
             prog_r = byname[r["name"]]
             for j in r.get("passes", []):
                 ps = stats.setdefault("pass_invocations", {}).setdefault(j["pass"], {
-                    "observed": 0, "modifying": 0, "mirror_agrees": 0, "deterministic": 0, "by_theorem": 0, "by_certificate": 0})
+                    "observed": 0, "modifying": 0, "mirror_agrees": 0, "hypothesis_holds": 0, "by_theorem": 0, "by_certificate": 0})
                 ps["observed"] += 1
                 ps["modifying"] += 1 if j["mod"] else 0
                 ps["mirror_agrees"] += 1 if j.get("same") else 0
-                ps["deterministic"] += 1 if j.get("det") else 0
+                ps["hypothesis_holds"] += 1 if j.get("hyp") else 0
                 ck.obligations += 1
-                if j.get("same") and j.get("det"):
-                    # simplify: C05_simplify_else_preserves applies (same machine); remove: the mirror is the tie,
-                    # behaviour preservation of this invocation is covered by the -O0 / pre-vs-post certificates
-                    if j["pass"] == "simplify":
-                        ps["by_theorem"] += 1
+                if j.get("same") and j.get("hyp"):
+                    # the mirror reproduces the real pass on this invocation and the hypothesis of its preservation theorem
+                    # holds on the snapshot (simplify: deterministic table, C05_simplify_else_preserves; remove: the kept
+                    # set is closed under reference, C05_remove_states_preserves)
+                    ps["by_theorem"] += 1
                     ck.discharged += 1
                     continue
                 ev = j.get("equiv")
